@@ -104,8 +104,89 @@ fn cont_on_copy(u: &Universe, img: &Path, tmp: &Path, tag: &str, cont: &[Value])
     r
 }
 
+/// `crashdrv kill`: replay the prefix, then run the last call and SIGKILL this very process at the
+/// given yield point / occurrence (a real kill: no destructors, no LMDB close, no unmap).
+fn main_kill(args: &[String]) {
+    let upath = arg(args, "--universe").expect("--universe");
+    let dir = PathBuf::from(arg(args, "--dir").expect("--dir"));
+    let case: Value = serde_json::from_str(&std::fs::read_to_string(arg(args, "--case").expect("--case")).unwrap()).unwrap();
+    let ops: Vec<Value> = case["ops"].as_array().unwrap().clone();
+    let point = case["point"].as_str().unwrap().to_string();
+    let occ = case["occ"].as_u64().unwrap() as usize;
+    vh::silence_panics();
+    let u = Universe::load(&upath);
+    let last = ops.last().unwrap().clone();
+    let lk = last["k"].as_str().unwrap_or("").to_string();
+    let counter = Arc::new(Mutex::new(0usize));
+    let install_killer = |point: String, occ: usize, counter: Arc<Mutex<usize>>| {
+        pocket_db::verif::set_handler(Some(Arc::new(move |name: &'static str| {
+            if name == point {
+                let mut c = counter.lock().unwrap();
+                *c += 1;
+                if *c == occ {
+                    unsafe {
+                        libc::kill(libc::getpid(), libc::SIGKILL);
+                    }
+                    std::thread::sleep(std::time::Duration::from_secs(10));
+                }
+            }
+        })));
+    };
+    if lk == "create" {
+        std::fs::write(dir.with_extension("offs"), "[]").unwrap();
+        install_killer(point, occ, counter);
+        let _ = Driver::open(&u, &dir, false);
+        std::process::exit(3); // the point was not reached
+    }
+    let mut d = Driver::open(&u, &dir, false).expect("open");
+    for op in &ops[..ops.len() - 1] {
+        let _ = do_op(&mut d, op);
+    }
+    let offs: Vec<Value> = d.offs.iter().map(|(o, i)| json!([*o as i64, *i as i64])).collect();
+    std::fs::write(dir.with_extension("offs"), serde_json::to_string(&offs).unwrap()).unwrap();
+    install_killer(point, occ, counter);
+    let _ = do_op(&mut d, &last);
+    std::process::exit(3);
+}
+
+/// `crashdrv inspect`: open a store directory left behind by a killed process, project it, run the
+/// continuation; prints one JSON object.
+fn main_inspect(args: &[String]) {
+    let upath = arg(args, "--universe").expect("--universe");
+    let dir = PathBuf::from(arg(args, "--dir").expect("--dir"));
+    let cont: Vec<Value> = serde_json::from_str(&std::fs::read_to_string(arg(args, "--cont").expect("--cont")).unwrap()).unwrap();
+    let filters: Vec<AFilter> = match arg(args, "--filters") {
+        Some(p) => serde_json::from_str(&std::fs::read_to_string(p).expect("filters file")).expect("filters json"),
+        None => vec![],
+    };
+    vh::silence_panics();
+    let u = Universe::load(&upath);
+    let offs: Vec<(u64, usize)> = std::fs::read_to_string(dir.with_extension("offs"))
+        .ok()
+        .and_then(|t| serde_json::from_str::<Vec<(u64, usize)>>(&t).ok())
+        .unwrap_or_default();
+    let out = match Driver::open(&u, &dir, false) {
+        Ok(mut d) => {
+            d.offs = offs;
+            let r = d.project();
+            let q = if filters.is_empty() { json!([]) } else { d.probes(&filters) };
+            let c = continuation(&mut d, &cont);
+            d.close();
+            json!({"opened": "ok", "r": r, "q": q, "cont": c})
+        }
+        Err(e) => json!({"opened": e, "r": {"open": 0}, "q": [], "cont": []}),
+    };
+    println!("{}", out);
+}
+
 fn main() {
     let args: Vec<String> = std::env::args().collect();
+    if args.get(1).map(|s| s.as_str()) == Some("kill") {
+        return main_kill(&args);
+    }
+    if args.get(1).map(|s| s.as_str()) == Some("inspect") {
+        return main_inspect(&args);
+    }
     let upath = arg(&args, "--universe").expect("--universe");
     let hpath = arg(&args, "--hist").expect("--hist");
     let opath = arg(&args, "--out").expect("--out");
